@@ -15,25 +15,21 @@ TRANSLATORS = [t1_operators.translate, t4_arith.translate]
 PROPERTY_FILE = 'Properties/C08.v'
 THEOREMS = [
     'C08_every_generator_only_extends', 'C08_extension_meaning', 'C08_result_length_formulas',
-    'C08_mul_default_exact', 'C08_mul_alter_exact', 'C08_mul_dadda_exact', 'C08_mul_wallace_partial',
+    'C08_mul_default_exact', 'C08_mul_alter_exact', 'C08_mul_dadda_exact', 'C08_mul_wallace_exact',
     'C08_mul_pow2_m1_exact', 'C08_mul_karatsuba_exact', 'C08_mul_karatsuba_pow2_exact', 'C08_last_step_exact',
     'C08_square_exact', 'C08_square_pow2_m1_exact',
     'C08_generate_mul', 'C08_generate_square',
-    'C08_modes_return_with_the_stated_length_upto6', 'C08_squares_return_upto8', 'C08_struct_meaning',
+    'C08_new_gates_carry_counter_labels',
+    'C08_mul_default_total_exact', 'C08_mul_alter_total_exact', 'C08_mul_dadda_total_exact',
+    'C08_mul_wallace_total_exact', 'C08_mul_pow2_m1_total_exact', 'C08_mul_karatsuba_total_exact',
+    'C08_mul_karatsuba_pow2_total_exact', 'C08_last_step_total_exact',
+    'C08_square_total_exact', 'C08_square_pow2_m1_total_exact',
 ]
-PARTIAL = {
-    'C08_mul_wallace_partial':
-        'add_mul_wallace (code repaired by fixes/D29.patch): the product is proved for ALL widths and length <= n + m; '
-        'that the final shifted adder returns at least n + m bits (so that the length is exactly n + m) is computed '
-        'for every width pair <= 6 only and otherwise checked by the direct oracle on every run',
-    'C08_modes_return_with_the_stated_length_upto6':
-        'the all-width theorems are conditional on the model run returning Ok; that the fuel of the modelled while '
-        'loops suffices and that Python-level IndexError / AssertionError paths are not taken on well-formed calls '
-        'is computed for every width pair <= 6 (all seven functions) and for the squarers up to 8 bits '
-        '(C08_squares_return_upto8), not proved for all widths (the bound is kept small because coqchk re-evaluates '
-        'these computations without a bytecode VM); the correspondence check shows Ok wherever the implementation '
-        'returned (all pairs <= 8 / 10, Karatsuba at 17-41 / 64, squarers at 47-54 / 97)',
-}
+# every statement is proved at full strength: the product / square for all widths, the exact number of result bits
+# (Wallace included) and normal termination (`..._total_exact`).  Not covered by a termination theorem: the
+# dispatching wrappers generate_mul / generate_square (their theorems stay conditional on the model returning Ok; the
+# wrappers only add `bare_circuit` + `set_outputs` around a mode whose termination is proved).
+PARTIAL = {}
 LEVEL_TEXT = ('every multiplication mode (add_mul, add_mul_alter, add_mul_dadda, add_mul_wallace, add_mul_pow2_m1, '
               'add_mul_karatsuba_with_efficient_sum = MulMode.KARATSUBA, plus add_mul_karatsuba and the private '
               'last_step_sum_with_new_powers_sum) and both squaring modes (add_square incl. its split at n >= 48, '
@@ -45,8 +41,17 @@ LEVEL_TEXT = ('every multiplication mode (add_mul, add_mul_alter, add_mul_dadda,
               'code for Karatsuba and for the squarer; the number of result bits (n+m, n+m-1 with a one-bit '
               'operand; 2n / 1) is proved for all widths for the default mode (by a potential argument on the sorted '
               'work lists of the weighted sum: one level turns k pending bits into one result bit and floor(k/2) '
-              'carries), alter, dadda, pow2_m1, both Karatsuba variants and both squarers; for Wallace <= n+m is '
-              'proved and equality is computed up to 6 x 6; '
+              'carries), alter, dadda, pow2_m1, both Karatsuba variants, both squarers and Wallace (the occupancy '
+              'pattern of its cell matrix is a function of the widths only; one witness run per width pair on the '
+              'all-ones operands, whose product needs n+m bits, fixes that function); '
+              'NORMAL TERMINATION is proved for all widths >= 1 (C08_<mode>_total_exact: for every injective '
+              'naming function of the uuid counter, every host and all non-empty lists of existing operand gates '
+              'the model returns Ok - the fuel of every modelled while loop suffices: Dadda column reduction and '
+              'height sequence, Wallace rounds, Karatsuba on max(n,m)+1, the squarer on n+1 with the thresholds of '
+              'the code, the C07 schedulers - and no IndexError / AssertionError path is taken: the last Dadda '
+              'column is filled by the carry chain of the final pass, the last level of the pow2_m1 family is '
+              'non-empty because every level from 1 on sums >= 2 bits and a sum of >= 2 bits has a second column), '
+              'so the value and length statements hold unconditionally; '
               '"only fresh gates, old gates keep their function" is the generic extension theorem of the builder '
               'layer; generate_mul / generate_square are proved for every MulMode / SquareMode; the model is tied to '
               '/repo by regenerating the cells (translator T4) and by netlist-equality correspondence on every run '
@@ -57,22 +62,30 @@ LEVEL_NOTE = ('Coq kernel + vm_compute; translators T1, T4; correspondence harne
               'with ExtrOcamlBasic + ExtrOcamlString only, ocamlfind ocamlopt 4.13; a 60-line driver built inside the '
               'check prints the model result - returned labels, every gate with type and operands, every users list, '
               'inputs, outputs, counter - and the harness compares it line by line with the implementation state: '
-              'exact netlist equality, no hashing); theorems are conditional on the model run returning Ok; the model '
+              'exact netlist equality, no hashing); the `_exact` theorems are conditional on the model run returning Ok '
+              '(any naming function), the `_total_exact` theorems are unconditional for injective naming functions, '
+              'non-empty operand lists of existing gates and - for Wallace / the add_sum_pow2_m1 family - a host and a '
+              'naming function that do not use the label "_PLACEHOLDER_STR_" / "" (termination of the C07 summation '
+              'generators is Proofs/ArithSumTotal*.v, of the two-number adder / subtractor Proofs/ArithTotalFacts.v); '
+              'generate_mul / generate_square stay conditional; the model '
               'calls the C07 / C09 models of the summation / subtraction generators, which are of the repaired code '
               '(fixes/D5, D6, D7; none of the repaired branches is reachable from a multiplier); add_mul_wallace is modelled '
               'as repaired by fixes/D29.patch (empty cells between gates of the two final rows are filled with a '
               'constant-false gate instead of being skipped: the pinned code returns wrong products for n = 2, '
               'm >= 11); value clauses of the '
               'add_sum_pow2_m1-based functions ask that the empty string is not a gate label (filter(None, .) would '
-              'drop it) and the Wallace clause asks that the placeholder string "_PLACEHOLDER_STR_" is not a gate '
-              'label')
+              'drop it) and the Wallace clauses (value AND exact length) ask that the placeholder string '
+              '"_PLACEHOLDER_STR_" is not a gate label')
 TECHNIQUE = ('Coq proof: generators as programs of the deep-embedded builder monad over the Circuit model; partial '
              'products as a matrix with value sum_i 2^i row_i = a * b; default mode through the C07 weighted-sum '
              'theorem plus a gap-freeness invariant and a potential argument (number of levels) on its sorted work lists; column compressors as weighted-bag '
              'rewriting (sum_i 2^i ones(column_i) invariant modulo 2^(n+m), a * b < 2^(n+m) closes the gap); '
              'anti-diagonal peeling for add_mul_pow2_m1 / add_square_pow2_m1 with a pending-columns invariant; '
              'Karatsuba and add_square by induction on the fuel with the algebraic identities and the subtractor\'s '
-             'modular result; bounded structural facts by vm_compute; netlist-equality correspondence under '
+             'modular result; termination by "works" lemmas over the builder monad (operands exist => Ok, results '
+             'exist), fuel adequacy by measure arguments, label provenance by a syntactic predicate on programs '
+             '(gates are only added under counter labels), Wallace length by shape abstraction + a semantic witness '
+             'run; netlist-equality correspondence under '
              'vm_compute and through OCaml extraction; direct oracle = bit-parallel evaluation of the '
              'implementation\'s netlist (exhaustive for n + m <= 12, 2000 random operand pairs beyond) cross-checked '
              'with Circuit.evaluate_full_circuit / Circuit.evaluate')
@@ -85,7 +98,8 @@ TRUSTED = ['uuid4 is modelled as a counter with a naming function that is univer
            'the bit-parallel reference interpreter of the direct oracle (harness/mulcorr.py eval_parallel), '
            'cross-checked against Circuit.evaluate_full_circuit on sampled assignments in every case']
 ASSUMPTIONS = ['operand widths >= 1 (an empty operand list raises in most modes; add_mul_wallace does not terminate '
-               'for an empty second operand and is not run on it)',
+               'for an empty second operand and is not run on it); the termination theorems state exactly this',
+               'termination theorems: the naming function of the uuid counter is injective (uuid4 does not repeat)',
                'the spelling of the input labels built by the generate_* wrappers is supplied by the harness',
                'MulMode / SquareMode are passed as enum members']
 
